@@ -16,7 +16,7 @@ Arith    == {"+", "-"}
 Rel      == {"=", "~=", "<", "<=", ">", ">="}
 Logic    == {"and", "or"}
 IntCtx   == {"exit", "glob", "local", "elem", "putc", "arg1", "arg1n", "farg1n", "arg2", "arg3", "farg", "farg2", "binl", "binr", "binrr", "cntobs", "ret"}
-BoolCtx  == {"if", "while", "not", "val", "and", "or", "asg", "arg", "candt", "corf", "cplus", "cminus", "ceq", "cntobs", "cntobsif"}
+BoolCtx  == {"if", "while", "not", "val", "and", "or", "asg", "arg", "candt", "corf", "cplus", "cminus", "ceq", "cntobs", "cntobsif", "ifskip", "ifskipthen", "ifskipelse", "whileskip"}
 ConstLeaf == {"imm", "imm0", "pool", "neg", "negpool", "hex", "char", "cexpr", "cexprbig"}
 
 ArithPrograms == {[fam |-> "op", op |-> o, l |-> a, r |-> b, ctx |-> c] : o \in Arith, a \in IntLeaf, b \in IntLeaf, c \in IntCtx}
